@@ -176,6 +176,9 @@ impl Lib {
             Ty::Union(i) => format!("union {}", self.unions[*i].name),
             Ty::Ptr(k, t) => format!("{}{} *", self.c_ty(t), if *k { " const" } else { "" }),
             Ty::Void => "void".into(),
+            // odd callbacks: a typedef of the *function type*, used through `*` (the first pointer
+            // level on top of a typedef'd function type must be swallowed by the lowering)
+            Ty::FnPtr(i) if i % 2 == 1 => format!("c04_cbf{} *", i),
             Ty::FnPtr(i) => format!("c04_cbt{}", i),
         }
     }
@@ -802,7 +805,8 @@ impl Lib {
             let _ = writeln!(h, "typedef {} {}[{}];", SCALARS[*sc].c, n, len);
         }
         for i in 0..self.cbsigs.len() {
-            let _ = writeln!(h, "typedef {};", self.cb_proto(i, &format!("(*c04_cbt{i})")));
+            if i % 2 == 1 { let _ = writeln!(h, "typedef {};", self.cb_proto(i, &format!("c04_cbf{i}"))); }
+            else { let _ = writeln!(h, "typedef {};", self.cb_proto(i, &format!("(*c04_cbt{i})"))); }
             let _ = writeln!(h, "{};", self.cb_proto(i, &format!("c04_cfn{i}")));
         }
         h.push_str("extern int c04_anchor;\nextern uint64_t c04_last;\n");
